@@ -137,6 +137,12 @@ def r2_fullness_guard(r, facts):
                     continue
                 if f.edge_dominates((b, tgt), fill_loc):
                     accepted.append((loc, e[1], side, val))
+                    continue
+                # the test may first be turned into a value (`QueueFull::check(dist, len)?`: Ok/Err, then `?`): every path to
+                # the slot write passes the test, and none arrives over its other (queue full) edge — value-driven
+                others = [s2 for s2 in set(f.succ[b]) if s2 != tgt]
+                if f.dominates(loc, fill_loc) and others and all(f.forward_paths_hit([Loc(o, 0)], [fill_loc], blockers=[loc]) is None for o in others):
+                    accepted.append((loc, e[1], side, val))
     for s in seen:
         r.inst('guard %s(dist on %s) [%s]' % (s[1], s[2], s[3]), f.where(s[0]), 'tail=%s head=%s' % (s[4], s[5]))
     if not accepted:
